@@ -19,11 +19,15 @@ func init() {
 
 func oracleC08(j *Job, sc Scn, x *Exec, res *XferRes, src, dst fsmodel.Tree, r *evid.Run) []Viol {
 	var v []Viol
-	if res.Hang || res.Stuck {
+	if (res.Hang || res.Stuck) && sc.Fault.Kind == "" {
 		v = append(v, Viol{"deadlock", fmt.Sprintf("fault-free transfer blocked (parked: %v)", res.Parked)})
 	}
 	for _, o := range dedup(res.Overlaps) {
 		v = append(v, Viol{"overlap:" + o, fmt.Sprintf("two %s calls in flight on the same stream end at once", o)})
+	}
+	if sc.Fault.Kind != "" {
+		// a failing user callback: the outcome is C04's subject; the stream discipline holds on the error paths too
+		return v
 	}
 	if res.SendErr != "" || res.RecvErr != "" {
 		v = append(v, Viol{"transfer-failed", fmt.Sprintf("fault-free transfer failed under this schedule: send=%q recv=%q", res.SendErr, res.RecvErr)})
@@ -137,6 +141,18 @@ func driveC08(p *Pool, r *evid.Run) {
 		ex(slow, b)
 		r.Set("slow_roles_"+pl.src, probe[0].Roles)
 	}
+	// the stream discipline on error paths: every hasher / notification call fails in turn (bound 1)
+	var flt []Scn
+	for _, pol := range []string{"run", "recv"} {
+		for _, cp := range []int{1, 64} {
+			for k := 0; k < 6; k++ {
+				for _, kind := range []string{"notify", "hasher"} {
+					flt = append(flt, Scn{Kind: "xfer", Src: "small", Dst: "small-dirty", Cap: cp, Policy: pol, Notify: true, SelectAlts: true, Fault: Fault{Kind: kind, K: k}})
+				}
+			}
+		}
+	}
+	exploreAll(p, r, "C08", flt, 1, 0)
 	// 400 files at bound 0 around every policy: every internal queue fills up
 	var big []Scn
 	for _, pol := range []string{"run", "recv", "starve"} {
